@@ -2,13 +2,16 @@
 
 Workload: corpus fonts (PUA-augmented so that every glyph is addressable by a code point with
 no Unicode-driven shaping, and un-augmented for the real cmap formats; plus variants carrying a
-synthetic `kern` table) × random requests × random option combinations, driven through the real
+synthetic `kern` table; variable fonts given vertical-metrics variations in the shapes the corpus lacks
+(VVAR with implicit advance-height mapping, VOrgMap/TsbMap rows interleaved with the advance rows); and
+generated fonts (vmon/gen/c07_fea.py) whose contextual rules call shared nested lookups while the glyphs
+those depend on are produced by later lookups of an earlier shaping stage) × random requests × random option combinations, driven through the real
 `Subsetter`.  Monitors sit on `Subsetter.subset`, `_closure_glyphs`, every per-table
 `closure_glyphs/subset_glyphs/prune_*` method the subsetter registers on table classes,
 `Lookup.subset_glyphs/closure_glyphs` (per lookup type/format) and `VarStore.subset_varidxes`.
 
 Oracles (all on the *saved* bytes, independent of fontTools): HarfBuzz nominal glyph (presence),
-HarfBuzz differential shaping original vs subset, HarfBuzz outlines/advances/COLR layers/MATH
+HarfBuzz differential shaping original vs subset, HarfBuzz outlines/advances (horizontal, vertical, vertical origin)/COLR layers/MATH
 records by glyph name at default and random variation locations, and a struct-level glyph-id
 reference sweep (vmon/oracle/c07_refsweep.py).
 """
@@ -23,7 +26,8 @@ from vmon.oracle import c07_refsweep as RS
 
 PROPERTY = "C07"
 LEVEL = "exploration"
-RULE = ("a case is one corpus font in one variant (PUA-augmented / plain / +synthetic kern) with a batch of "
+RULE = ("a case is one corpus font in one variant (PUA-augmented / plain / +synthetic kern / +derived VVAR shapes) or one "
+        "generated multi-round-closure font, with a batch of "
         "(request, options) draws; a draw is non-trivial when the subset removed at least one glyph and the "
         "retained part was really compared (shaped texts whose original result shows layout activity, or "
         "outline/advance comparisons of retained glyphs); distinct = (font, variant, request kind, option signature)")
@@ -45,7 +49,7 @@ REQUIRED_MONITORS = [
 ]
 CASE_TIMEOUT = 240
 MANIFEST = {
-    "text": "Exploration: corpus fonts with layout tables, kern, variations, COLR or MATH (PUA-augmented and plain) are subset through the real Subsetter with random requests (unicode sets, singletons, all-but-one, glyph names, glyph ids, text, everything) and random option combinations; monitors on Subsetter.subset/_closure_glyphs, every per-table closure/subset/prune method, Lookup-level per-type counters and VarStore.subset_varidxes. Each saved subset is judged by HarfBuzz (presence, differential shaping over all short texts of retained characters, outlines/advances/COLR/MATH by glyph name at default and random locations) and by a struct-level glyph-id reference sweep. Tests cannot settle this because closure and remapping depend on the requested set and the suite only diffs about 86 fixed cases against stored TTX.",
+    "text": "Exploration: corpus fonts with layout tables, kern, variations, COLR or MATH (PUA-augmented and plain; variable fonts also with derived VVAR shapes: implicit advance-height map, VOrgMap/TsbMap interleaved with advance rows) and feaLib-compiled generated fonts whose closure needs several rounds (contextual rules calling shared nested ligature/single/multiple/contextual lookups, producers in later lookups of an earlier shaping stage) are subset through the real Subsetter with random requests (unicode sets, singletons, all-but-one, glyph names, glyph ids, text, everything) and random option combinations; monitors on Subsetter.subset/_closure_glyphs, every per-table closure/subset/prune method, Lookup-level per-type counters and VarStore.subset_varidxes. Each saved subset is judged by HarfBuzz (presence, differential shaping over all short texts of retained characters, outlines/advances/COLR/MATH by glyph name at default and random locations) and by a struct-level glyph-id reference sweep. Tests cannot settle this because closure and remapping depend on the requested set and the suite only diffs about 86 fixed cases against stored TTX.",
     "note": "Trusted base: HarfBuzz 12.1, vmon/oracle/c07_refsweep.py (spec-written reader), geom.py. Preconditions: texts only over requested+present code points without Unicode-driven shaping side effects; intentionally dropped behaviour (feature tags, --no-layout-closure, legacy kern, .notdef outline) is removed from the original's expectation as well; notdef_glyph=False and AAT/Graphite fonts not generated.",
     "technique": "monitors on the real subsetter functions; differential shaping and rendering through HarfBuzz; independent struct-level reference sweep",
     "design_ref": "DESIGN.md §4 C07",
